@@ -557,3 +557,10 @@ def r12(rr, repo):
         all(any(k.startswith('isnone(') and 'imdecode' in k and v is False for k, v in p.pc) for p in rets)
     okx = bool(raises) and all(any(k.startswith('isnone(') and 'imdecode' in k and v is True for k, v in p.pc) for p in raises)
     rr.ob('Frame.decode returns the image imdecode produced, and raises exactly when imdecode produced nothing', okr and okx, dmod, dfn, witness=f'{len(rets)} returning, {len(raises)} raising paths', key='decode-returns-image')
+
+
+@rule('C09.R13', "a frame set with no topics is a frame set: MQ.send hands every result that is not None to the sender (only None means 'nothing to send'), so the empty set is encoded, published and decoded as an "
+                 "empty set like any other (shares C03.R3)")
+def r13(rr, repo):
+    from .c03 import r3 as c03r3
+    c03r3(rr, repo)
